@@ -311,7 +311,7 @@ Definition write (h : hyps) (st : state) (w : nat) (o : wop) : option (state * w
                     (remove_paths vs (st_tree st))
                     (set_feed st w (map IDel (seq k0 (List.length vs)))) (st_subs st), WOk)
   | WDelSub d =>
-      if negb (target_ok d) then None else
+      if negb (target_ok d && star_free d) then None else
       if tree_locked st (target_of d) then None else
       let vs := victims st d (fun _ => true) in
       let k0 := List.length (st_dels st) in
